@@ -15,6 +15,7 @@ ID = 'C18'
 AF4, AF6 = int(socket.AF_INET), int(socket.AF_INET6)
 V4S = ['192.0.2.10', '10.1.2.3', '127.0.0.1', '203.0.113.255']
 V6S = ['2001:db8::1', '::1', 'fe80::1234:5678:9abc:def0', '2001:0db8:0000:0000:0000:ff00:0042:8329', '2001:db8:0:0:1:0:0:1', '1:2:3:4:5:6:7::', '::2:3:4:5:6:7:8', '2001:db8::', '::ffff:192.0.2.128']
+POLICY = 'Hardened OpenSSH Server v9.9 (version 1)'
 NAMES = ['host.example', 'srv-01', 'a.b.c.example.org', 'localhost', 'xn--nxasmq6b.example']
 
 
@@ -71,6 +72,8 @@ def eval_case(case):
     argv = ['-n'] + (['-j'] if case['json'] else []) + ([fam] if fam else []) + (['--skip-rate-test'] if not case.get('rate') else [])
     if case['p_opt'] is not None:
         argv += ['-p', str(case['p_opt'])]
+    if case.get('policy'):
+        argv += ['-P', POLICY]
     path = None
     if case['where'] == 'file':
         lines = []
@@ -88,7 +91,7 @@ def eval_case(case):
         if path:
             os.unlink(path)
     invalid = [t for t in targets if not (1 <= t['eport'] <= 65535)] or (case['p_opt'] is not None and not (1 <= case['p_opt'] <= 65535))
-    cl = ['where:' + case['where'], 'fam:' + (fam or 'none'), 'json' if case['json'] else 'text'] + ['spell:' + t['spelling'] for t in targets[:1]] + (['invalid-port'] if invalid else []) + (['-p'] if case['p_opt'] is not None else [])
+    cl = ['where:' + case['where'], 'fam:' + (fam or 'none'), 'json' if case['json'] else 'text', 'policy-audit' if case.get('policy') else 'standard-audit'] + ['spell:' + t['spelling'] for t in targets[:1]] + (['invalid-port'] if invalid else []) + (['-p'] if case['p_opt'] is not None else [])
     v6 = any(':' in t['host'] for t in targets)
     nt = v6 or bool(fam) or (case['where'] == 'file' and case['p_opt'] is not None) or bool(invalid)
     if r.hang:
@@ -157,7 +160,25 @@ def eval_case(case):
                 # each later connection (host-key / group-exchange probes) is a first attempt again
                 fails.append(['preferred-family-not-used-by-later-connections', 'argv %r: families of the audit connections %r, preferred %d' % (argv, audit_conns.get(t['text']), pref)])
     # labels
-    if case['json']:
+    if case.get('policy'):
+        if case['json']:
+            try:
+                doc = json.loads(r.out)
+                docs = doc if isinstance(doc, list) else [doc]
+                labels = sorted((d.get('host'), d.get('port')) for d in docs if isinstance(d, dict))
+                want = sorted((t['host'], t['eport']) for t in targets)
+                if labels != want and not fails:
+                    fails.append(['policy-json-host-port', '%r vs %r' % (labels, want)])
+            except ValueError:
+                if not fails:
+                    fails.append(['json-unparseable', r.out[-200:]])
+        else:
+            import re
+            labels = sorted(m.strip() for m in re.findall(r'^Host:\s+(.*)$', report.strip_ansi(r.out), re.M))
+            want = sorted(label_text(t['host'], t['eport']) for t in targets)
+            if labels != want and not fails:
+                fails.append(['policy-host-label', '%r vs %r' % (labels, want)])
+    elif case['json']:
         try:
             doc = json.loads(r.out)
             docs = doc if isinstance(doc, list) else [doc]
@@ -191,7 +212,7 @@ def strat_case():
     tgt = st.tuples(host, port, st.integers(0, 5), st.sampled_from(['v4', 'v6', 'both46', 'both64', 'mixed464', 'mixed646', 'many'])).map(target)
 
     def build(t):
-        tg, where, p_opt, fam, js, noise, n_extra, rate = t
+        tg, where, p_opt, fam, js, noise, n_extra, rate, pol = t
         targets = list(tg[:1 + (n_extra if where == 'file' else 0)])
         if where == 'file' and n_extra == 2 and len(targets) == 3:
             # the same host listed again on another port (a different target)
@@ -213,9 +234,9 @@ def strat_case():
                 x = dict(x, resolver=prev[0]['resolver'])
             seen.add((x['host'], eport))
             out.append(dict(x, eport=eport, text=spell(x['host'], x['port'], x['spelling'])))
-        return {'targets': out, 'where': where, 'p_opt': p_opt, 'fam': fam, 'json': js, 'noise': noise and where == 'file', 'rate': rate and where == 'cli' and not js}
+        return {'targets': out, 'where': where, 'p_opt': p_opt, 'fam': fam, 'json': js, 'noise': noise and where == 'file', 'rate': rate and where == 'cli' and not js and not pol, 'policy': pol}
     return st.tuples(st.lists(tgt, min_size=3, max_size=3), st.sampled_from(['cli', 'cli', 'file']), st.one_of(st.none(), st.none(), st.sampled_from([22, 2222, 1, 65535, 8022])), st.sampled_from(['', '', '-4', '-6', '-46', '-64']),
-                     st.booleans(), st.booleans(), st.integers(0, 2), st.sampled_from([False, False, False, True])).map(build)
+                     st.booleans(), st.booleans(), st.integers(0, 2), st.sampled_from([False, False, False, True]), st.sampled_from([False, False, True])).map(build)
 
 
 def strat_invalid():
